@@ -9,6 +9,7 @@ import CogentModel.Model.ClassicHMM
 import CogentModel.Proofs.ClassicHMM
 import CogentModel.Proofs.GapMerge
 import CogentModel.Proofs.GapRepaired3
+import CogentModel.Proofs.Progressive
 /-! # C18 — property theorems: aligners preserve their inputs and are optimal for their own model
 
 `S` is any score type with `+` and a strict total order respected by `+` (`ScoreLaws`; instances `Int`, `Rat`);
@@ -264,6 +265,59 @@ theorem local_alignment_sound (h : HMM S) (hns : NoSilent h) {α : Type} (s1 s2 
   rw [hs, ← hv]
   exact local_upper h s1.length s2.length a b q hq
 
+/-! ## progressive alignment: the column merge on an arbitrary guide tree (`Model/Progressive.lean`) -/
+section progressive
+open CogentModel.Progressive
+
+/-- **Progressive alignment, column completion (`pog_traceback`).**  For every pair of child widths and every
+`aligned_positions` a DP can return (columns strictly increasing inside each child; columns may be jumped over),
+the completed list contains every column of the left child and every column of the right child exactly once and
+in order, and keeps the DP's aligned columns as a sub-list. -/
+theorem pog_traceback_complete (n1 n2 : Nat) (ap : List Pos) (h : apValid n1 n2 ap 0 0 = true) :
+    (pogTraceback n1 n2 ap).filterMap (·.1) = List.range n1 ∧
+    (pogTraceback n1 n2 ap).filterMap (·.2) = List.range n2 ∧
+    ap.Sublist (pogTraceback n1 n2 ap) := by
+  have c := pogTraceback_complete n1 n2 ap h
+  refine ⟨?_, ?_, pogLoop_sublist n1 n2 ap 0 0⟩
+  · rw [List.range_eq_range', ← c.1]; congr 1
+  · rw [List.range_eq_range', ← c.2]; congr 1
+
+/-- **Progressive alignment returns equal-length rows that degap to the inputs — for ANY guide tree.**  For every
+binary guide tree (any shape, any number of leaves, any sequences) and any DP outcome at every internal node, the
+rows produced by the column merge — the code as it is (`fixed = false`) and the proposed repair (`fixed = true`) —
+degap to the leaf sequences, in leaf order, and all have the length of the root's completed position list.
+(Structural induction on the tree.) -/
+theorem progressive_rows_degap {α : Type} (fixed : Bool) (t : GTree α) (h : t.valid = true) :
+    (t.rows fixed).map degap = t.leaves ∧ ∀ r ∈ t.rows fixed, r.length = t.width :=
+  GTree.rows_spec fixed t h
+
+/-- **The repaired column merge keeps every sub-alignment** (all guide trees, all DP outcomes): at every internal
+node the rows of the result that belong to the left (right) subtree, restricted to the columns that come from that
+child, are exactly the child's alignment; the removed columns are gaps in all of these rows by construction
+(`specMerge`).  So the columns the DP aligned are columns of the returned alignment.  This is a theorem about the
+PROPOSED repair `fixes/C18-progressive-column-merge.patch`; for the code as it is see the counterexample below. -/
+theorem progressive_keeps_children_repaired {α : Type} (l r : GTree α) (ap : List Pos)
+    (h : (GTree.node l r ap).valid = true) :
+    (((GTree.node l r ap).rows true).take (l.rows true).length).map (project false (GTree.node l r ap).full) = l.rows true ∧
+    (((GTree.node l r ap).rows true).drop (l.rows true).length).map (project true (GTree.node l r ap).full) = r.rows true :=
+  (GTree.keeps_children l r ap h).2
+
+def exInner : GTree Char := .node (.leaf ['C', 'A']) (.leaf ['A']) [(some 0, none), (some 1, some 0)]
+def exTree : GTree Char := .node (.leaf ['G', 'A']) exInner [(none, some 0), (some 0, none), (some 1, some 1)]
+
+/-- **The code as it is does NOT keep sub-alignments** (kernel-evaluated witness, 3 sequences GA, CA, A on the guide
+tree (GA,(CA,A))): the inner node aligns `CA / -A`; the root inserts a gap column between the inner columns; the
+third row becomes `-A-` (its `A` under the `G`) instead of `--A`: the parent gap at COLUMN 1 is applied at
+SEQUENCE position 1. -/
+theorem progressive_keeps_children_counter :
+    exTree.valid = true ∧
+    exInner.rows false = [[some 'C', some 'A'], [none, some 'A']] ∧
+    exTree.rows false = [[none, some 'G', some 'A'], [some 'C', none, some 'A'], [none, some 'A', none]] ∧
+    exTree.rows true = [[none, some 'G', some 'A'], [some 'C', none, some 'A'], [none, none, some 'A']] ∧
+    ((exTree.rows false).drop 1).map (project true exTree.full) ≠ exInner.rows false := by decide
+
+end progressive
+
 /-! ## non-vacuity: a concrete 3-state affine-gap HMM over `Int` (X = 1, Y = 2, M = 3) -/
 
 def exHMM : HMM Int where
@@ -304,5 +358,12 @@ example : pairValid 4 ([(1,1),(4,1)], [], 6) = true := by decide
 example : keepsAll true 4 [([(1,1),(4,1)], [], 6), ([(4,1)], [(0,1)], 4), ([], [(0,2)], 2)] = true := by decide
 example : ∀ x ∈ ([([(1,1),(4,1)], [], 6), ([(4,1)], [(0,1)], 4), ([], [(0,2)], 2)] : List (Gaps × Gaps × Int)),
     pairValid 4 x = true := by decide
+-- progressive column merge
+open CogentModel.Progressive in
+example : apValid 3 2 [(some 0, some 0), (some 2, none)] 0 0 = true ∧
+    pogTraceback 3 2 [(some 0, some 0), (some 2, none)] =
+      [(some 0, some 0), (some 1, none), (some 2, none), (none, some 1)] := by decide
+open CogentModel.Progressive in
+example : exTree.valid = true ∧ exTree.leaves = [['G', 'A'], ['C', 'A'], ['A']] ∧ exTree.width = 3 := by decide
 
 end CogentModel.C18
